@@ -179,7 +179,8 @@ def sizeOk (cfg : Cfg) (size : Nat) : Bool := size ≤ cfg.maxSize
 
 /-- the documented quota rule -/
 def QuotaDoc (cfg : Cfg) (usage size : Nat) : Prop := cfg.quotaEnabled = true → usage + size ≤ cfg.quotaLimit
-/-- what the code does with the quota: it computes and logs, and accepts -/
-def quotaImpl (_cfg : Cfg) (_usage _size : Nat) : Bool := true
+/-- what the code does with the quota (`CheckRecipientQuota`, answered 552 when it fails): the store of exactly that address
+is over quota when what it holds plus the message exceeds the limit; role mailboxes have none -/
+def quotaImpl (cfg : Cfg) (usage size : Nat) : Bool := !cfg.quotaEnabled || decide (usage + size ≤ cfg.quotaLimit)
 
 end Raven.Policy
